@@ -105,6 +105,8 @@ def check(run, M, tier):
                           "self.x is bound to the caller's array x itself",
                           "self.x is not the caller's array: `%s` (the solution would not be written into the array the caller passed)" % unparse(node),
                           stmt=node)
+            elif isinstance(node, ast.AugAssign):
+                continue  # `self.x += ...` on an array updates it in place: the caller's array still receives the solution
             else:
                 run.bad("K3", "ConjugateGradient.%s self.x" % name, loc(f, node),
                         "self.x is rebound by `%s`; the caller's array would stop receiving the solution" % unparse(node), stmt=node)
